@@ -26,11 +26,12 @@ def suppress_logging():
     Yields:
         Nothing; restores logging on exit.
     """
+    previous = logging.root.manager.disable
     logging.disable(logging.CRITICAL)
     try:
         yield
     finally:
-        logging.disable(logging.NOTSET)
+        logging.disable(previous)
 
 
 class OutputSuppressionContext:
